@@ -234,10 +234,12 @@ class GraphBuilder:
         return v
 
     # ------------------------------------------------------------ nodes
-    def node(self, op, inputs, ref, attrs=None, n_out=1, domain="", out_dts=None, name=None, random=False):
+    def node(self, op, inputs, ref, attrs=None, n_out=1, domain="", out_dts=None, name=None, random=False, captures=()):
         """Add a node. `inputs`: list of Val or None (omitted optional input).
-        `ref(*arrays)` -> array or tuple of arrays (numpy reference)."""
-        arrays = [None if v is None else v.arr for v in inputs]
+        `ref(*arrays)` -> array or tuple of arrays (numpy reference).
+        `captures`: values read by the node's subgraphs from this scope; their
+        arrays are passed to `ref` after the inputs but they are not ONNX inputs."""
+        arrays = [None if v is None else v.arr for v in inputs] + [v.arr for v in captures]
         try:
             with np.errstate(all="ignore"):
                 res = ref(*arrays)
@@ -273,7 +275,8 @@ class GraphBuilder:
             in_names.pop()
         self.nodes.append(dict(op=op, domain=domain, name=nname, inputs=in_names,
                                outputs=["" if o is None else o.name for o in outs],
-                               attrs=dict(attrs or {}), ref=ref, n_out=n_out, out_dts=out_dts, random=random))
+                               attrs=dict(attrs or {}), ref=ref, n_out=n_out, out_dts=out_dts, random=random,
+                               captures=[v.name for v in captures], n_in=len(inputs)))
         if random:
             self.random_roots.extend(o.name for o in outs if o is not None)
         return outs[0] if n_out == 1 else outs
@@ -289,14 +292,19 @@ class GraphBuilder:
             env[n] = np.asarray(feeds[n], dtype=pb.DT2NP[self.vals[n].dt])
         for nd in self.nodes:
             arrays = [None if i == "" else env[i] for i in nd["inputs"]]
-            # Pad omitted trailing optional inputs.
-            import inspect
-            try:
-                nparams = len(inspect.signature(nd["ref"]).parameters)
-                while len(arrays) < nparams:
+            if nd.get("captures"):
+                while len(arrays) < nd["n_in"]:
                     arrays.append(None)
-            except (TypeError, ValueError):
-                pass
+                arrays += [env[c] for c in nd["captures"]]
+            else:
+                # Pad omitted trailing optional inputs.
+                import inspect
+                try:
+                    nparams = len(inspect.signature(nd["ref"]).parameters)
+                    while len(arrays) < nparams:
+                        arrays.append(None)
+                except (TypeError, ValueError):
+                    pass
             with np.errstate(all="ignore"):
                 res = nd["ref"](*arrays)
             if not isinstance(res, (tuple, list)):
@@ -331,8 +339,19 @@ class GraphBuilder:
         g = pb.graph(self.name, nodes, inits, ins, outs, vis)
         return pb.model(g, self.opset)
 
+    def to_subgraph(self, inputs, outputs, captured):
+        """GraphProto bytes for use as a subgraph attribute. `inputs`: names of
+        the subgraph's formal inputs (in order); `captured`: names that refer to
+        the enclosing scope and are therefore not declared here."""
+        nodes = [pb.node(nd["op"], nd["inputs"], nd["outputs"], nd["attrs"], nd["name"], nd["domain"]) for nd in self.nodes]
+        inits = [pb.tensor(n, self.vals[n].arr) for n in self.inits]
+        ins = [pb.value_info(n, pb.DT2ONNX[self.vals[n].dt], [None] * self.vals[n].rank) for n in inputs]
+        outs = [pb.value_info(n, pb.DT2ONNX[self.vals[n].dt], None) for n in outputs]
+        assert all(c in self.vals for c in captured)
+        return pb.graph(self.name, nodes, inits, ins, outs)
+
     def topo(self):
-        return [[nd["name"], nd["inputs"], nd["outputs"], nd["op"]] for nd in self.nodes]
+        return [[nd["name"], list(nd["inputs"]) + list(nd.get("captures", [])), nd["outputs"], nd["op"]] for nd in self.nodes]
 
     def downstream_of(self, roots):
         """Names of values reachable from `roots` through nodes."""
